@@ -120,6 +120,8 @@ type topology struct {
 	MaxD     [2]int // cap on the number of deviations in the quick / thorough tier (0 = tier default)
 	Thorough bool   // thorough tier only
 	PathLen2 bool   // the path-length alphabet of this topology also has the value 2
+	Rejoin   bool   // one intermediate certificate is reachable from the leaf along two different prefixes: the documented
+	// per-certificate memo of buildChains then answers the second arrival with the chains of the first
 }
 
 func rootC(cn, key string) certDef {
@@ -167,7 +169,7 @@ func topologies() []topology {
 			rootC("R1", "kR1"), with(caC("I2", "kI2", "R1", "kR1"), fPool, 2), caC("I1", "kI1", "I2", "kI2"), leafC("kL", "I1", "kI1")}},
 		{Name: "direct-nil-intermediates", Note: "leaf issued by the root, VerifyOptions.Intermediates == nil", NilInter: true, Defs: []certDef{
 			rootC("R1", "kR1"), leafC("kL", "R1", "kR1")}},
-		{Name: "diamond", Note: "X reachable from the leaf through I1/X and through I1/I2 -> I2/X (stresses the buildChains memo)", Defs: []certDef{
+		{Name: "diamond", Note: "X reachable from the leaf through I1/X and through I1/I2 -> I2/X (stresses the buildChains memo)", Rejoin: true, Defs: []certDef{
 			rootC("R1", "kR1"), caC("X", "kX", "R1", "kR1"), caC("I2", "kI2", "X", "kX"),
 			caC("I1", "kI1", "X", "kX"), caC("I1", "kI1", "I2", "kI2"), leafC("kL", "I1", "kI1")}},
 		{Name: "same-key-other-name", Note: "J has I1's key but another name; the akid deviation of the leaf points at J", Defs: []certDef{
@@ -179,14 +181,14 @@ func topologies() []topology {
 		crossTopo("cross-sign-rsa", "cross-sign with RSA keys", "rsa2048", "rsa2048b", "rsa1024", "rsa1024b", [2]int{1, 1}),
 		crossTopo("cross-sign-ecdsa", "cross-sign with ECDSA keys", "p256", "p256b", "p384", "p224", [2]int{1, 1}),
 		{Name: "diamond-tall", Note: "diamond with one more intermediate Y above the join X; path-length alphabet {none,0,1,2} so that a limit on Y separates the short from the long path",
-			MaxD: [2]int{1, 2}, PathLen2: true, Defs: []certDef{
+			MaxD: [2]int{1, 2}, PathLen2: true, Rejoin: true, Defs: []certDef{
 				rootC("R1", "kR1"), caC("Y", "kY", "R1", "kR1"), caC("X", "kX", "Y", "kY"), caC("I2", "kI2", "X", "kX"),
 				caC("I1", "kI1", "X", "kX"), caC("I1", "kI1", "I2", "kI2"), leafC("kL", "I1", "kI1")}},
 		// thorough tier: six entities
 		{Name: "series3", Note: "three intermediates in series", Thorough: true, Defs: []certDef{
 			rootC("R1", "kR1"), caC("I3", "kI3", "R1", "kR1"), caC("I2", "kI2", "I3", "kI3"), caC("I1", "kI1", "I2", "kI2"),
 			leafC("kL", "I1", "kI1")}},
-		{Name: "mesh", Note: "two roots, I2 cross-signed by both, I1 issued by I2 and by R1", Thorough: true, MaxD: [2]int{2, 2}, Defs: []certDef{
+		{Name: "mesh", Note: "two roots, I2 cross-signed by both, I1 issued by I2 and by R1", Thorough: true, MaxD: [2]int{2, 2}, Rejoin: true, Defs: []certDef{
 			rootC("R1", "kR1"), rootC("R2", "kR2"), caC("I2", "kI2", "R1", "kR1"), caC("I2", "kI2", "R2", "kR2"),
 			caC("I1", "kI1", "I2", "kI2"), caC("I1", "kI1", "R1", "kR1"), leafC("kL", "I1", "kI1")}},
 	}
